@@ -31,7 +31,7 @@ def enc_text(s):
 def enc_subitem(it):
     t = it['t']
     if t == 0x51:
-        body = struct.pack('>I', it['max'])
+        body = it['max'] if isinstance(it['max'], (bytes, bytearray)) else struct.pack('>I', it['max'])
     elif t == 0x52:
         body = enc_text(it['uid'])
     elif t == 0x55:
@@ -104,7 +104,7 @@ def enc_pdu(p, title_pad=b' '):
         body = struct.pack('BBBB', p.get('r2', 0), p.get('r3', 0), p['source'], p['reason'])
     else:
         body = p['data']
-    return struct.pack('>BBI', t, p.get('r1', p.get('r', 0)) if t != 4 else p.get('r', 0), len(body)) + body
+    return struct.pack('>BBI', t, p.get('r1', p.get('r', 0)), len(body)) + body
 
 
 # ------------------------------------------------------------------ decode (length-driven)
@@ -120,7 +120,7 @@ def _cut(buf, pos, hdr, what):
 def dec_subitem(t, r, body):
     if t == 0x51:
         _need(len(body) == 4, 'max-length sub-item length')
-        return {'t': t, 'r': r, 'max': struct.unpack('>I', body)[0]}
+        return {'t': t, 'r': r, 'max': body}
     if t == 0x52:
         return {'t': t, 'r': r, 'uid': body}
     if t == 0x55:
@@ -202,7 +202,7 @@ def dec_pdu(buf):
             _need(pos + 4 + ln <= len(body), 'PDV runs past the PDU')
             pdvs.append({'ctx': body[pos + 4], 'val': body[pos + 5:pos + 4 + ln]})
             pos += 4 + ln
-        return {'t': t, 'r': r, 'pdvs': pdvs}
+        return {'t': t, 'r1': r, 'pdvs': pdvs}
     if t in (5, 6):
         _need(n == 4, 'release length')
         return {'t': t, 'r1': r, 'r2': body}
